@@ -13,6 +13,7 @@ mod capture;
 mod corp;
 mod corp_gen;
 mod jsonv;
+mod sty;
 mod props;
 
 use std::collections::HashMap;
